@@ -17,11 +17,21 @@ def hexStr (s : String) : String := hexOfBytes (s.toUTF8.toList.map (·.toNat))
 /-- run the statements of one accepted line one by one; the environment of the last completed
 statement is kept when a later one fails -/
 def runStmts (rs : RS) : List Stmt → RS × String
-  | [] => (rs, "ok")
+  | [] => (rs, "ok e=")
   | s :: rest =>
     let (r, st') := (Ref.evalStmt 5000 rs.env s).run.run rs.st
     match r with
-    | .ok (.normal, _, env') => runStmts { rs with env := env', st := st' } rest
+    | .ok (.normal, v, env') =>
+      if rest.isEmpty then
+        -- the REPL echoes the value of the line when it is not null (like `-c` does for a program, C24):
+        -- determined when the last statement is an expression statement whose value is an integer, a boolean or null
+        let echo : String := match s, v with
+          | .exprS .., .null => "e="
+          | .exprS .., .int n => "e=" ++ hexStr (toString n.toInt ++ "\n")
+          | .exprS .., .bool b => "e=" ++ hexStr ((if b then "true" else "false") ++ "\n")
+          | _, _ => "e=*"
+        ({ rs with env := env', st := st' }, "ok " ++ echo)
+      else runStmts { rs with env := env', st := st' } rest
     | .ok (_, _, _) => ({ rs with known := false }, "unc")
     | .error (.rt _) =>
       -- a `let`/`fn` whose initializer failed: the name is rebound, to a value the documents do not determine
@@ -55,7 +65,12 @@ def lineStep (acc : RS × List String) (x : Nat × String) : RS × List String :
       let (rs', tag) := runStmts { rs with sctx := sctx' } p.stmts
       let written := (rs'.st.out.take (rs'.st.out.length - before)).reverse
       if tag == "unc" then (rs', outs ++ ["-"])
-      else (rs', outs ++ [tag ++ ":" ++ hexStr (String.join (written.map (· ++ "\n")))])
+      else
+        -- `ok e=<hex or *>` carries the echo; other tags (rt) have none
+        let (t, echo) := match tag.splitOn " " with
+          | [t, e] => (t, ":" ++ e)
+          | _ => (tag, "")
+        (rs', outs ++ [t ++ ":" ++ hexStr (String.join (written.map (· ++ "\n"))) ++ echo])
 
 /-- `repl @@ <sexp line 1> @@ <sexp line 2> …` -/
 def run (line : String) : String :=
